@@ -158,6 +158,22 @@ func (c recvCase) stream() (frames [][]byte, stream []byte) {
 	return
 }
 
+// stillIntact: every message a Receive has returned is the caller's; a later Receive (or Send) on
+// the same transport must not change it. held are the slices exactly as they were returned, kept
+// until the end of the sequence and compared again with what was sent.
+func stillIntact(held, want [][]byte) []vf.Finding {
+	for i, got := range held {
+		if !bytes.Equal(got, want[i]) {
+			at := 0
+			for at < len(got) && at < len(want[i]) && got[at] == want[i][at] {
+				at++
+			}
+			return []vf.Finding{vf.F("NBTTransport.Receive", "earlier-message-changed-by-later-receive", "message %d of %d (%d bytes) was delivered intact but differs from byte %d on after the following calls on the same transport", i, len(held), len(want[i]), at)}
+		}
+	}
+	return nil
+}
+
 func checkReceive(c recvCase) []vf.Finding {
 	frames, stream := c.stream()
 	total := len(stream)
@@ -181,6 +197,7 @@ func checkReceive(c recvCase) []vf.Finding {
 	tr := nbt.NewNBTTransportFromConn(conn)
 	// frames that are completely inside the delivered stream must come back exactly, in order
 	off := 0
+	var held [][]byte
 	for i, want := range frames {
 		end := off + 4 + len(want)
 		got, err := tr.Receive()
@@ -195,6 +212,7 @@ func checkReceive(c recvCase) []vf.Finding {
 				}
 				return []vf.Finding{vf.F("NBTTransport.Receive", kind, "frame %d: got %d bytes want %d (%#x); lens %v segs %v", i, len(got), len(want), len(want), c.Lens, c.Segs)}
 			}
+			held = append(held, got)
 			off = end
 			continue
 		}
@@ -205,14 +223,14 @@ func checkReceive(c recvCase) []vf.Finding {
 		if len(got) != 0 {
 			return []vf.Finding{vf.F("NBTTransport.Receive", "partial-frame-returned-with-error", "frame %d cut at %d: got %d bytes and error %v", i, len(stream), len(got), err)}
 		}
-		return nil
+		return stillIntact(held, frames)
 	}
 	// everything delivered: one more Receive must report the end, not fabricate a message
 	got, err := tr.Receive()
 	if err == nil {
 		return []vf.Finding{vf.F("NBTTransport.Receive", "message-fabricated-after-end-of-stream", "got %d bytes", len(got))}
 	}
-	return nil
+	return stillIntact(held, frames)
 }
 
 func recvNontrivial(c recvCase) bool {
@@ -348,16 +366,18 @@ func checkEndToEnd(c e2eCase) []vf.Finding {
 		rest = rest[k:]
 	}
 	r := nbt.NewNBTTransportFromConn(&scriptConn{segs: segs})
+	var held [][]byte
 	for i, want := range sent {
 		got, err := r.Receive()
 		if err != nil || !bytes.Equal(got, want) {
 			return []vf.Finding{vf.F("NBTTransport", "send-receive-not-identity", "message %d of %v: sent %d bytes, received %d (err %v)", i, c.Lens, len(want), len(got), err)}
 		}
+		held = append(held, got)
 	}
 	if got, err := r.Receive(); err == nil {
 		return []vf.Finding{vf.F("NBTTransport.Receive", "message-fabricated-after-end-of-stream", "got %d bytes", len(got))}
 	}
-	return nil
+	return stillIntact(held, sent)
 }
 
 func TestEndToEnd(t *testing.T) {
